@@ -583,7 +583,7 @@ SUBS = [
 
 CLAIM = {
     "technique": "property-based testing of the full client/server path with recording callables (round-trip oracle), in-process and over real TCP/Unix sockets",
-    "text": "Generated-input search over method names, argument values, return values, versions, call styles (plain, attribute chain, MultiCall positions, notifications) and servers; a recording callable and the preset return value give an exact oracle for 'invoked exactly once with those arguments, returns exactly its value'; History is compared with the texts captured on the other side.",
+    "text": "Generated-input search over method names, argument values, return values, versions, call styles (plain, attribute chain, MultiCall positions, notifications) and servers; a recording callable and the preset return value give an exact oracle for 'invoked exactly once with those arguments, returns exactly its value'; History is compared with the texts captured on the other side; call sequences through objects the caller keeps (namespaces, bound methods, the _notify accessor, MultiCall) and re-registration histories are generated as well.",
     "note": "Trusts Python's json for value equality; the socket part uses the OS scheduler and loopback interfaces of this sandbox.",
     "design_ref": "DESIGN.md section 4, C01",
     "engine": "E1+E3",
